@@ -61,6 +61,12 @@ func (e *Engine) newCtx(f *ssa.Function, em *Emit) *fnCtx {
 
 // buildVC translates f once (with the given dead-candidate set) and returns the context.
 func (e *Engine) buildVC(f *ssa.Function, cfg *FnConfig, dead map[string]bool) (c *fnCtx, err error) {
+	return e.buildVC2(f, cfg, dead, false)
+}
+
+// buildVC2: panicSide selects the second pass of a panics_iff contract (the condition is assumed on entry and the
+// only obligations are "no return is reached").
+func (e *Engine) buildVC2(f *ssa.Function, cfg *FnConfig, dead map[string]bool, panicSide bool) (c *fnCtx, err error) {
 	em := newEmit()
 	c = e.newCtx(f, em)
 	c.dead = dead
@@ -141,11 +147,25 @@ func (e *Engine) buildVC(f *ssa.Function, cfg *FnConfig, dead map[string]bool) (
 			if er != nil {
 				return c, er
 			}
-			em.assert("(not " + fm + ")")
+			if panicSide {
+				// second pass of a panics_iff contract: under the condition no return may be reached
+				em.assert(fm)
+			} else {
+				em.assert("(not " + fm + ")")
+			}
 		}
 		c.entry = c.st.clone()
 	}
 	c.run()
+	if panicSide {
+		c.obls = nil
+		for ri, r := range c.rets {
+			o := &Obl{Class: "post", Fn: c.fnName(), Pos: c.eng.prog.Fset.Position(r.pos), Text: "panics_iff " + c.ct.PanicsIff.Src + ": no normal return when the condition holds", Guard: r.reach, Cond: "false"}
+			o.Name = fmt.Sprintf("%s#post:panics_iff/%s", c.fnName(), c.retLabel(ri))
+			c.obls = append(c.obls, o)
+		}
+		return c, nil
+	}
 	c.checkPost(c.params)
 	c.initObligations()
 	c.resetObligations()
@@ -300,6 +320,22 @@ func (e *Engine) verifyFn(f *ssa.Function, cfg *FnConfig) *FnResult {
 			}
 		}
 	}
+	if ct := e.contractOf(f); ct != nil && ct.PanicsIff != nil && (cfg == nil || cfg.Classes == nil || cfg.Classes["post"]) {
+		// the other direction of panics_iff, on a second translation of the body
+		c2, err := e.buildVC2(f, cfg, dead, true)
+		if err == nil && c2 != nil {
+			var ps []*Obl
+			for _, o := range c2.obls {
+				if e.skipObl != nil && e.skipObl[o.Name] {
+					o.Result = "skipped"
+				} else {
+					ps = append(ps, o)
+				}
+				real = append(real, o)
+			}
+			res.SolverMs += e.solve(c2.em.out.String(), ps, e.opts.TimeoutMs, nil, true)
+		}
+	}
 	res.Obls = real
 	return res
 }
@@ -380,6 +416,25 @@ func (e *Engine) solve(preamble string, obls []*Obl, timeoutMs int, mv []modelVa
 			}
 		}
 		pending = next
+	}
+	// last round: what is still undecided goes to the first solver once more, one query per process (a query that
+	// shares an incremental session with two dozen others inherits their instantiations and often answers unknown
+	// where the same query alone is decided at once)
+	if portfolio && len(pending) > 0 && len(pending) <= 16 {
+		var wg sync.WaitGroup
+		for _, o := range pending {
+			if o.Result != "unknown" && o.Result != "" {
+				continue
+			}
+			wg.Add(1)
+			go func(o *Obl) {
+				defer wg.Done()
+				solverSem <- true
+				e.runSolverChunk(solvers[0], preamble, []*Obl{o}, timeoutMs, mv)
+				<-solverSem
+			}(o)
+		}
+		wg.Wait()
 	}
 	for _, o := range obls {
 		if o.Result == "" {
